@@ -69,7 +69,9 @@ fn xor(a: &NodeId, b: &NodeId) -> [u8; 32] {
 async fn run_async(cfg: &LCfg, hist: &[LEv]) -> Outcome<LEv> {
     let par = cfg.parallelism;
     let listen = ListenConfig::Ipv4 { ip: Ipv4Addr::new(10, 7, 0, 100), port: 9000 };
-    let mut node = SNode::start(SNodeSpec { keyno: LOCAL, listen, enr: Some(record(LOCAL, 1, false, 7)) }, |b| { b.query_parallelism(par); b.query_peer_timeout(PEER_TIMEOUT); b.query_timeout(QUERY_TIMEOUT); }, false).await;
+    let mut node = SNode::start(SNodeSpec { keyno: LOCAL, listen, enr: Some(record(LOCAL, 1, false, 7)) }, |b| { b.query_parallelism(par); b.query_peer_timeout(PEER_TIMEOUT); b.query_timeout(QUERY_TIMEOUT);
+        // the size of this node's own NODES answers has nothing to do with a lookup's k = 16
+        b.max_nodes_response(2); }, false).await;
     let peers: Vec<Enr> = (0..cfg.n_peers as u8).map(peer_record).collect();
     let ids: Vec<NodeId> = peers.iter().map(|e| e.node_id()).collect();
     let target = util::node_id(&util::key(199));
@@ -179,13 +181,14 @@ async fn run_async(cfg: &LCfg, hist: &[LEv]) -> Outcome<LEv> {
                 succeeded.insert(*p as usize);
                 successes += 1;
                 *counters.entry("responses").or_insert(0) += 1;
-                for i in s {
+                for i in s.iter().filter(|i| **i < 100) {
                     let d = if *i == *p { 0 } else { util::log2_distance(&ids[*p as usize], &ids[*i as usize]) };
                     if distances.contains(&d) && *i != *p {
                         learned.insert(*i as usize);
                     }
                 }
-                let nodes: Vec<Enr> = s.iter().map(|i| peers[*i as usize].clone()).collect();
+                // 100 + i: a newer record of peer i that carries no endpoint any more
+                let nodes: Vec<Enr> = s.iter().map(|i| if *i >= 100 { util::enr(&util::key(91 + (*i - 100) as u16), &util::EnrSpec { seq: 2, ..Default::default() }) } else { peers[*i as usize].clone() }).collect();
                 let from = NodeAddress { socket_addr: peers[*p as usize].udp4_socket().unwrap().into(), node_id: ids[*p as usize] };
                 node.inject(HandlerOut::Response(from, Box::new(v::Response { id, body: v::ResponseBody::Nodes { total: 1, nodes } }))).await;
             }
@@ -274,7 +277,9 @@ async fn run_async(cfg: &LCfg, hist: &[LEv]) -> Outcome<LEv> {
                     // completeness: fewer than k and not cut off => every candidate it learned of was contacted
                     if list.len() < k && !cut_off {
                         *counters.entry("short_results").or_insert(0) += 1;
-                        for l in &learned {
+                        // (initial candidates: a plain lookup starts from all table entries)
+                        let initial: Vec<usize> = if cfg.predicate_k.is_none() { cfg.seeded.iter().map(|s| *s as usize).collect() } else { vec![] };
+                        for l in learned.iter().chain(initial.iter()) {
                             if !issued.contains_key(l) {
                                 violation = Some(mk("if fewer than k nodes are returned every learned candidate was contacted", "c10:incomplete", format!("peer {l} was reported to the lookup at a requested distance but never contacted; result has {} of {k}", list.len())));
                             }
@@ -299,6 +304,9 @@ async fn run_async(cfg: &LCfg, hist: &[LEv]) -> Outcome<LEv> {
                 }
             }
             sets.push(vec![p as u8]); // its own record
+            for a in &all {
+                sets.push(vec![100 + *a]); // a newer, endpoint-less record of another peer
+            }
             sets
         };
         for (p, _) in issued.iter() {
